@@ -1,5 +1,5 @@
 CONSTANTS Flaw_Provides = TRUE
- Flaw_NoOutput = TRUE
+ Flaw_NoOutput = FALSE
  Base = 0
  Combine = FALSE
  Emit = TRUE
